@@ -29,6 +29,7 @@ type vpScenarioOpts struct {
 	nodes        []string // candidate nodes handed to Filter
 	faults       bool     // one API / provider call fails cleanly at a symbolic position
 	retryBind    bool     // after a failed bind the scheduler filters again and binds on any approved node
+	restarts     bool     // a housekeeping step may also be a restart of galaxy-ipam (new plugin, tables rebuilt from the store)
 }
 
 // vpReincarnation: bind a pod, end that incarnation (finish and/or delete), handle its events now,
@@ -45,6 +46,7 @@ func vpReincarnation(o vpScenarioOpts) *vpWorld {
 	if o.faults {
 		w.faultAt = nondetInt(0, 40)
 	}
+	w.allowRestart = o.restarts
 	kind := o.kinds[nondetChoice(len(o.kinds))]
 	policy := nondetPick("", "immutable", "never")
 	w.setDeployment(2)
@@ -109,6 +111,12 @@ func vpReincarnation(o vpScenarioOpts) *vpWorld {
 	w.checkAll(o.prop, "second bind")
 	if o.prop == "C02" {
 		w.checkSticky(policy, firstIPs, reservedBefore, name)
+		if o.restarts {
+			// nothing released the IP on purpose (no API release before the re-binding, the workload still exists with
+			// the pod inside its replica range): a reserving policy must give the first incarnation's IP back
+			now := vpBoundIPs(w.pods[name])
+			verifAssert("C02/sticky-first-ip", verifOr(policy == "", len(now) == 1 && len(firstIPs) == 1 && now[0] == firstIPs[0]), "a pod identity with a reserving policy was re-bound with another IP than its first incarnation had, although nothing released it")
+		}
 	}
 	w.setRunning(name)
 	w.syncListers()
@@ -118,13 +126,26 @@ func vpReincarnation(o vpScenarioOpts) *vpWorld {
 	return w
 }
 
-// anyHousekeeping performs one of: nothing, handle any pending event, a resync pass, an API release of any allocated IP.
+// anyHousekeeping performs one of: nothing, handle any pending event, a resync pass, an API release of any allocated IP,
+// a restart of galaxy-ipam (if the scenario allows it).
 func (w *vpWorld) anyHousekeeping(prop string, withAPIRelease bool) {
 	n := 3
 	if withAPIRelease {
 		n = 4
 	}
-	switch nondetChoice(n) {
+	if w.allowRestart {
+		n++
+	}
+	c := nondetChoice(n)
+	if w.allowRestart && c == n-1 {
+		c = 9
+	}
+	switch c {
+	case 9:
+		if w.restart() != nil {
+			return
+		}
+		w.checkAll(prop, "a restart of galaxy-ipam")
 	case 0:
 	case 1:
 		if len(w.pending) == 0 {
